@@ -19,6 +19,15 @@ Debtors owe a notification:
 -/
 namespace MlModel.Queue
 
+/-- `enqueue_done` as a function of the five fields it reads (kept folded in the step proofs) -/
+def doneOf (exc : Option ErrKind) (stopRequested : Bool) (maxEnq start stop : Nat) : Bool :=
+  if exc.isSome || stopRequested then true
+  else if maxEnq == 0 then false
+  else start == stop && stop == maxEnq
+
+theorem enqueueDone_eq (s : Shared) :
+    s.enqueueDone = doneOf s.exc s.stopRequested s.maxEnq s.start s.stop := rfl
+
 def isProd (t : Thread) : Bool := t.prog.kind == .producer
 def isCons (t : Thread) : Bool := t.prog.kind == .get || t.prog.kind == .batch
 def isStopper (t : Thread) : Bool := t.prog.kind == .stopper
@@ -153,15 +162,33 @@ instance (s : Shared) (t : Thread) : Decidable (XOK s t) := by unfold XOK; infer
 def pastS (t : Thread) : Bool :=
   isProd t && (match t.pc with | .start | .sAcq => false | _ => true)
 
+/-- has executed the state update of `_stop_enqueue` (its arguments are recorded in the thread) -/
+def stoppedOf (rets : List Nat) (reraise : Option ErrKind) : Bool := !rets.isEmpty || reraise.isSome
+def stopped (t : Thread) : Bool := stoppedOf t.rets t.reraise
+
+@[simp] theorem stoppedOf_cons (r : Nat) (l : List Nat) (o : Option ErrKind) : stoppedOf (r :: l) o = true := rfl
+@[simp] theorem stoppedOf_some (l : List Nat) (e : ErrKind) : stoppedOf l (some e) = true := by
+  simp [stoppedOf]
+
 def pastT (t : Thread) : Bool :=
   isProd t && (match t.pc with
     | .tR0 | .tR1 | .tR2 | .tR3 | .tR4 | .tS0 | .tS1 | .tS2 | .tS3 | .tS4 | .tRel => true
-    | .done => !t.rets.isEmpty || t.reraise.isSome
+    | .done => stopped t
     | _ => false)
 
 /-- a producer that left `enqueue_from_iterator` because `enqueue_done` already held -/
 def early (t : Thread) : Bool :=
-  isProd t && (match t.pc with | .done => t.rets.isEmpty && t.reraise.isNone | _ => false)
+  isProd t && (match t.pc with | .done => !stopped t | _ => false)
+
+/-- thread-local: `_stop_enqueue`'s arguments are set exactly from `tAcq` on -/
+def TL (t : Thread) : Prop :=
+  match t.pc with
+  | .start | .sAcq | .sRel | .eNext | .pAcq | .pPut | .pStAcq | .pStRel | .pR0 | .pR1 | .pR2 | .pR3
+  | .pR4 | .pRet | .pWait | .pWake | .pRaiseT | .pExit => stopped t = false
+  | .tAcq | .tR0 | .tR1 | .tR2 | .tR3 | .tR4 | .tS0 | .tS1 | .tS2 | .tS3 | .tS4 | .tRel => stopped t = true
+  | _ => True
+
+instance (t : Thread) : Decidable (TL t) := by unfold TL; split <;> infer_instance
 
 /-- `WF_enq`: the number of producers was declared up front -/
 def CNT (c : Cfg) : Prop :=
